@@ -19,7 +19,7 @@ _HERE = os.path.dirname(os.path.abspath(__file__))
 sys.path.insert(0, _HERE)
 
 # commits in /repo that add guarded hooks (ROMEA_CORE_COMMON_VERIF)
-HOOK_COMMITS = ["3f1b53b"]
+HOOK_COMMITS = ["3f1b53b", "bda8058", "3f6df55"]
 
 # properties deliberately not claimed, with the reason
 NOT_APPLICABLE = {}
